@@ -156,7 +156,7 @@ var c08OtherTypes = func() []refesl.GUID {
 // c08Large: X.509 lists whose single / last entry is larger than a megabyte (firmware dbx files are
 // that large as a whole): truncations near every size-class boundary and at the end, size fields
 // overstating the data by small and large amounts.
-func c08Large(c *hx.Ctx) {
+func c08Large(c *hx.Ctx, tier string) {
 	for _, n := range []int{1<<20 + 4096, 3 << 19} {
 		for _, two := range []bool{false, true} {
 			es := []refesl.Entry{{Owner: ownerA, Data: fill(n, 0x3d)}}
@@ -194,12 +194,41 @@ func c08Large(c *hx.Ctx) {
 			}
 		}
 	}
-	c.Sample(map[string]any{"class": "large entry", "entry_bytes": []int{1<<20 + 4096, 3 << 19}})
+	// a list boundary exactly on every power of two up to 32 MiB (thorough: 64 MiB), reached by one
+	// large list, with another list behind it: nothing behind the boundary may be dropped
+	top := 25
+	if tier == "thorough" {
+		top = 26
+	}
+	for k := 20; k <= top; k++ {
+		for _, lead := range []bool{false, true} {
+			if !c.Next() {
+				continue
+			}
+			c.Tick()
+			total := 1 << k
+			small := refesl.Mk(refesl.SHA256, 48, refesl.Entry{Owner: ownerA, Data: fill(32, 7)})
+			var ls []refesl.List
+			n := total - 28 - 16
+			if lead {
+				ls = append(ls, small)
+				n -= 76
+			}
+			ls = append(ls, refesl.Mk(refesl.X509, uint32(16+n), refesl.Entry{Owner: ownerB, Data: fill(n, 0x61)}), small, refesl.Mk(refesl.X509, 16+5, refesl.Entry{Owner: ownerA, Data: fill(5, 2)}))
+			seed := refesl.Encode(ls)
+			c08Judge(c, seed, fmt.Sprintf("well-formed stream with a list boundary at offset 2^%d", k), seed)
+			// and the same stream cut right behind the boundary + 1 byte (must be an error)
+			if c.Next() {
+				c08Judge(c, seed[:total+1], "truncated stream (one byte behind a list boundary at a power of two)", seed)
+			}
+		}
+	}
+	c.Sample(map[string]any{"class": "large entry", "entry_bytes": []int{1<<20 + 4096, 3 << 19}, "list_boundaries_at_powers_of_two_up_to": top})
 }
 
 func c08Run(c *hx.Ctx, tier, unit string) {
 	if unit == "large-entry" {
-		c08Large(c)
+		c08Large(c, tier)
 		return
 	}
 	shard, _ := strconv.Atoi(strings.TrimPrefix(unit, "mut#"))
